@@ -76,6 +76,15 @@ func (e *env) rangeOps(n int) {
 		got := timed(5*time.Second, func() string { return sign(lo.Compare(&v)) })
 		r.Op("vercmp "+nverWords(&lo)+" "+nverWords(&v), got, true)
 		r.Count("vercmp:" + got)
+		// the documented order: versions of one kind by their components, different kinds by the kind strings
+		wantCmp := cmpV(lo, v)
+		if lo.Kind != v.Kind {
+			wantCmp = strings.Compare(lo.Kind, v.Kind)
+			r.Count("vercmp:kinds-differ")
+		}
+		if got != sign(wantCmp) {
+			r.Fail("", fmt.Sprintf("version-compare: (%q %v).Compare(%q %v)=%s, expected %s (kinds lexically, then the ten components)", lo.Kind, lo.V, v.Kind, v.V, got, sign(wantCmp)))
+		}
 		rg := &claircore.Range{Lower: lo, Upper: up}
 		tag := "set"
 		if rnd.Chance(1, 20) {
